@@ -8,12 +8,15 @@ import (
 	"context"
 	"flag"
 	"fmt"
+	"net/http"
 	"os"
 	"os/exec"
 	"reflect"
 	"strings"
 
 	"github.com/rs/zerolog"
+	"github.com/rs/zerolog/hlog"
+	zlog "github.com/rs/zerolog/log"
 
 	"verif/drv"
 	"verif/seq"
@@ -141,6 +144,22 @@ func callOn(recv reflect.Value, m reflect.Method) (out []reflect.Value, panicked
 	return
 }
 
+// disabledSources: the loggers the library itself hands out for "no logger here" (used THROUGH the pointer
+// they return: identity matters), plus the ways a user builds a disabled one.
+func disabledSources() (names []string, get []func() *zerolog.Logger) {
+	add := func(n string, f func() *zerolog.Logger) { names = append(names, n); get = append(get, f) }
+	add("zerolog.Ctx(ctx without logger)", func() *zerolog.Logger { return zerolog.Ctx(context.Background()) })
+	add("log.Ctx(ctx without logger)", func() *zerolog.Logger { return zlog.Ctx(context.Background()) })
+	add("hlog.FromRequest(request without logger)", func() *zerolog.Logger {
+		req, _ := http.NewRequest("GET", "http://x/", nil)
+		return hlog.FromRequest(req)
+	})
+	add("Nop()", func() *zerolog.Logger { l := zerolog.Nop(); return &l })
+	add("New(nil).Level(Disabled)", func() *zerolog.Logger { l := zerolog.New(nil).Level(zerolog.Disabled); return &l })
+	add("copy of *zerolog.Ctx(ctx)", func() *zerolog.Logger { l := *zerolog.Ctx(context.Background()); return &l })
+	return
+}
+
 func child() {
 	spec := os.Getenv("C04_CHILD")
 	var kind string
@@ -152,6 +171,14 @@ func child() {
 	if strings.HasSuffix(kind, "+reject") {
 		lg = lg.Sample(&countSampler{admit: false})
 		kind = strings.TrimSuffix(kind, "+reject")
+	}
+	if strings.HasPrefix(kind, "fatal@") {
+		var i int
+		fmt.Sscanf(kind, "fatal@%d", &i)
+		_, get := disabledSources()
+		get[i]().Fatal().Msg("x")
+		fmt.Printf("RETURNED\n")
+		os.Exit(0)
 	}
 	switch kind {
 	case "fatal":
@@ -445,6 +472,53 @@ func main() {
 	}
 	r.Sample(fmt.Sprintf("filtered (logger level warn) Info(): every one of %d exported *Event methods, then every ordered pair, e.g. Str.Msg, Func.Send, Object.MsgFunc", nMethods))
 
+	// the disabled loggers the library hands out: Panic() still panics, Fatal() still exits, nothing else does anything
+	{
+		names, get := disabledSources()
+		for i, name := range names {
+			func() {
+				panicked := false
+				func() {
+					defer func() { panicked = recover() != nil }()
+					get[i]().Panic().Str("k", "v").Msg("boom")
+				}()
+				r.Eval(fmt.Sprint("disabled-source", i, "panic", panicked), true)
+				if !panicked {
+					r.Violation("", "disabled-source/panic", fmt.Sprintf("%s: Panic().Msg did not panic", name), nil)
+				}
+				p2 := false
+				enabled := false
+				func() {
+					defer func() { p2 = recover() != nil }()
+					lp := get[i]()
+					lp.WithLevel(zerolog.PanicLevel).Msg("no boom")
+					lp.WithLevel(zerolog.FatalLevel).Msg("no exit")
+					enabled = lp.Info().Str("k", "v").Enabled() || lp.Log().Enabled() || lp.Error().Enabled()
+					lp.Info().Msg("m")
+					lp.Print("p")
+					lp.UpdateContext(func(c zerolog.Context) zerolog.Context { return c.Str("u", "v") })
+				}()
+				r.Eval(fmt.Sprint("disabled-source", i, "inert", p2, enabled), true)
+				if p2 || enabled {
+					r.Violation("", "disabled-source/inert", fmt.Sprintf("%s: panicked=%v on WithLevel(Panic/Fatal)/Info/Print/UpdateContext, Enabled()=%v (want false, false)", name, p2, enabled), nil)
+				}
+			}()
+			cmd := exec.Command(os.Args[0])
+			cmd.Env = append(os.Environ(), fmt.Sprintf("C04_CHILD=fatal@%d 0 0", i))
+			outb, err := cmd.Output()
+			code := 0
+			if ee, ok := err.(*exec.ExitError); ok {
+				code = ee.ExitCode()
+			} else if err != nil {
+				fmt.Println("INFRA: child:", err)
+				os.Exit(2)
+			}
+			r.Eval(fmt.Sprint("disabled-source", i, "fatal", code), true)
+			if code != 1 || strings.Contains(string(outb), "RETURNED") {
+				r.Violation("", "disabled-source/fatal", fmt.Sprintf("%s: Fatal().Msg did not exit with status 1 (status %d, output %q)", name, code, outb), nil)
+			}
+		}
+	}
 	// Fatal in child processes: 9 named logger levels x {global trace, global above fatal}
 	for _, ll := range []int{-1, 0, 1, 2, 3, 4, 5, 6, 7} {
 		for _, gl := range []int{-1, 5, 7} {
